@@ -199,7 +199,10 @@ func (e *Engine) verifyFunc(fn *ssa.Function) (u *Unit) {
 				u.staleClauses = append(u.staleClauses, fmt.Sprintf("%s: assertion %s -- %s", funcName(fn), cl.Label, e.broken[cl.FnName]))
 				continue
 			}
-			if !u.assertsSeen[cl.Label] && !cl.Each {
+			// `#each` is about every occurrence and says nothing when there is none - except that an anchor which had an
+			// occurrence on the recorded tree and has none now (the call was deleted, not moved into a helper) is what a
+			// numbered anchor without its call is: a failing obligation
+			if !u.assertsSeen[cl.Label] && (!cl.Each || e.anchorWasThere(fr.obName("assert", cl.Label))) {
 				u.oblige(fr.obName("assert", cl.Label), "assert", cl.Tags, "true", "false", fr.pos(fn.Pos()),
 					"anchor call site not found: "+cl.Callee+" #"+fmt.Sprint(cl.Ordinal)+" -- "+cl.Text)
 			}
@@ -1098,4 +1101,17 @@ func servesRequest(fn *ssa.Function) bool {
 		}
 	}
 	return false
+}
+
+// anchorWasThere: the recorded tree had an obligation of that name (for any property).
+func (e *Engine) anchorWasThere(name string) bool {
+	if e.allBaseline == nil {
+		e.allBaseline = map[string]bool{}
+		for _, m := range loadBaseline() {
+			for n := range m {
+				e.allBaseline[n] = true
+			}
+		}
+	}
+	return e.allBaseline[name]
 }
